@@ -742,10 +742,16 @@ def sync_check(prop, tier, replay):
         v = json.load(open(replay))
         d = v.get("detail", v)
         pfile = os.path.join(wd, "replay.ndjson")
-        with open(pfile, "w") as f:
-            f.write(json.dumps(d["path"]) + "\n")
-        summ = vlib.run_harness([vlib.harness_bin("replay"), "sync", pfile, scratch, prop],
-                                env={"VERIF_KNOWN": ",".join(sorted(all_known))})
+        if "case" in d:      # a behaviour of MultiSync.tla
+            with open(pfile, "w") as f:
+                f.write(json.dumps(d["case"]) + "\n")
+            summ = vlib.run_harness([vlib.harness_bin("replay"), "multisync", pfile, scratch, str(d.get("idx", 0)), prop],
+                                    env={"VERIF_KNOWN": ",".join(sorted(all_known))})
+        else:
+            with open(pfile, "w") as f:
+                f.write(json.dumps(d["path"]) + "\n")
+            summ = vlib.run_harness([vlib.harness_bin("replay"), "sync", pfile, scratch, prop],
+                                    env={"VERIF_KNOWN": ",".join(sorted(all_known))})
         for x in summ["violations"]:
             log("REPLAY-DIVERGENCE " + x["summary"][:1500])
         return 1 if summ["violations"] else 0
@@ -828,10 +834,107 @@ def sync_check(prop, tier, replay):
     assumptions = ["in-process SyncClient = the axum handlers of sos_server (same locks and server_helpers calls, "
                    "requests/responses round-tripped through the protobuf encoding)",
                    "CommitTree.tla lemmas; harness/src/sync_world.rs projection (hash -> term learned at edit time)"]
+    # ---- every event log of the account: MultiSync.tla
+    ms_cover, ms_viol, ms_known = multisync_part(prop, tier, wd, scratch, all_known)
+    cover["multi_log"] = ms_cover
+    cover["states"] += ms_cover["states"]
+    cover["transitions"] += ms_cover["transitions"]
+    cover["traces_validated_against_impl"] += ms_cover["behaviours"]
+    cover["rule"] += (" All logs: MultiSync.tla couples the identity, account, device, file and folder logs (edits that "
+                      "append to several logs: create / rename / delete a folder, trust a device, secrets, file secrets; "
+                      "folder logs appearing and disappearing through the account log); TLC checks QuiescentConverged, "
+                      "SuccessMeansEqual and NoLoss on the intended merge rule and shows each listed deviation breaks one "
+                      "of them; simulated behaviours (selected to cover the pairs of concurrent edit kinds) run on two "
+                      "real devices and a server on all four backend pairs: after every step the set of (replica, log) "
+                      "whose root changed or which appeared / disappeared must be the model's; a successful sync must leave "
+                      "device status = server status; at the end all statuses and served folders are equal (C04) and "
+                      "every log holds exactly the events the edits appended (C05).")
+    violations = summ["violations"] + ms_viol
     vlib.write_evidence(prop, tier, "model_checking", cover, assumptions, time.time() - t0,
-                        len(summ["violations"]))
-    known_hits = [dict(k2, **all_known[k2["key"]]) for k2 in summ["known"] if k2["key"] in all_known]
-    return vlib.finish(prop, summ["violations"], known_hits)
+                        len(violations))
+    known_hits = [dict(k2, **all_known[k2["key"]]) for k2 in (summ["known"] + ms_known) if k2["key"] in all_known]
+    return vlib.finish(prop, violations, known_hits)
+
+
+MULTI_DEVS = {"DeviceLogNoMerge": "SuccessMeansEqual", "FilesNoAncestorFetch": "NoLoss"}
+
+
+def multisync_part(prop, tier, wd, scratch, all_known):
+    consts = {"Devices": '{"a", "b"}', "MaxEdits": "3" if tier == "quick" else "4", "Rounds": "2",
+              "Deviations": "{}", "EmitBehaviours": "FALSE"}
+    cfg = vlib.render_cfg("MC_MultiSync.cfg", consts, os.path.join(wd, "ms_prop.cfg"))
+    r = vlib.run_tlc("MC_MultiSync", cfg, prop + "ms", timeout_s=1800)
+    if r.violated:
+        raise ToolError("MultiSync spec violates %s" % r.violated)
+    devs = sorted(d for d in MULTI_DEVS if d in all_known)
+    for d in devs:
+        cfg = vlib.render_cfg("MC_MultiSync.cfg", dict(consts, MaxEdits="3", Deviations=dev_set([d])),
+                              os.path.join(wd, "ms_dev.cfg"))
+        rd = vlib.run_tlc("MC_MultiSync", cfg, prop + "md", timeout_s=900, coverage=False)
+        if MULTI_DEVS[d] not in rd.violated:
+            raise ToolError("deviation %s no longer breaks %s in MultiSync.tla" % (d, MULTI_DEVS[d]))
+    want = 24 if tier == "quick" else 160
+    maxedits = 5 if tier == "quick" else 6
+    cfg = vlib.render_cfg("MC_MultiSync.cfg", dict(consts, MaxEdits=str(maxedits), Deviations=dev_set(devs),
+                                                   EmitBehaviours="TRUE"), os.path.join(wd, "ms_emit.cfg"))
+    _strip_invariants(cfg, ["QuiescentConverged", "SuccessMeansEqual", "NoLoss"])
+    raw = _emit_cases("MC_MultiSync", cfg, prop + "me", simulate=(max(800, want * 12), 40), timeout_s=600)
+    uniq = {}
+    for h in raw:
+        uniq.setdefault(json.dumps([s["op"] for s in h[:-1]]), h)
+    beh = list(uniq.values())
+
+    def features(h):
+        """Pairs of edit kinds made on the two devices inside one offline window (between syncs)."""
+        feats = set()
+        window = {"a": [], "b": []}
+        for s in h:
+            op = s["op"]
+            if op["op"] == "edit":
+                window[op["d"]].append(op["kind"])
+                feats.add(("kind", op["kind"]))
+            elif op["op"] == "sync":
+                other = "b" if op["d"] == "a" else "a"
+                for x in window[op["d"]]:
+                    for y in window[other]:
+                        feats.add(("pair",) + tuple(sorted((x, y))))
+                window[op["d"]] = []
+        return feats
+    pool = [(features(h), h) for h in beh]
+    chosen, covered = [], set()
+    while pool and len(chosen) < want:
+        pool.sort(key=lambda fh: -len(fh[0] - covered))
+        f, h = pool.pop(0)
+        covered |= f
+        chosen.append(h)
+    beh = chosen
+    if len(beh) < want // 2:
+        raise ToolError("TLC emitted only %d multi-log behaviours" % len(beh))
+    vlib.cargo_build()
+    chunks = 8
+    per = (len(beh) + chunks - 1) // chunks
+    inputs = []
+    for i in range(chunks):
+        part = beh[i * per:(i + 1) * per]
+        if part:
+            p = os.path.join(wd, "ms_%02d_%d.ndjson" % (i, i * per))
+            with open(p, "w") as f:
+                for c in part:
+                    f.write(json.dumps(c) + "\n")
+            inputs.append(p)
+    summ = vlib.run_harness_parallel(
+        lambda p: [vlib.harness_bin("replay"), "multisync", p, os.path.join(scratch, os.path.basename(p)[:5]),
+                   os.path.basename(p).split("_")[2].split(".")[0], prop],
+        inputs, jobs=8, timeout_s=3000, env={"VERIF_KNOWN": ",".join(sorted(all_known))})
+    if summ["mismatches"] and not summ["violations"]:
+        # a divergence from the model without a property failure: model or harness out of step
+        raise ToolError("multi-log change pattern differs from MultiSync.tla: %s"
+                        % json.dumps(summ["mismatches"][:3])[:1200])
+    cover = {"states": r.distinct, "transitions": r.generated, "behaviours": len(beh),
+             "steps": summ["steps"], "features_covered": sorted("/".join(f) for f in covered),
+             "deviations_modelled": devs,
+             "counters": {k: v for k, v in summ["counters"].items() if "pattern" in k or k.startswith("known")}}
+    return cover, summ["violations"], summ["known"]
 
 
 @register("C04")
@@ -1491,7 +1594,7 @@ def check_c03(tier, replay):
         lambda p: [vlib.harness_bin("replay"), "leak", p, os.path.join(scratch, os.path.basename(p)[:8]),
                    os.path.basename(p).split("_")[2].split(".")[0]],
         inputs, jobs=6, timeout_s=3000)
-    if summ["mismatches"]:
+    if summ["mismatches"] and not summ["violations"]:
         raise ToolError("the byte scan does not see the clear tokens Flow.tla predicts (scanner or model out of "
                         "step with the code): %s" % json.dumps(summ["mismatches"][:3])[:1500])
     variants = set(k for k in summ["nontrivial_keys"] if k.startswith("variant:"))
@@ -1709,7 +1812,7 @@ def check_c17(tier, replay):
     s_up = vlib.run_harness_parallel(
         lambda p: [vlib.harness_bin("replay"), "upload", p, os.path.join(scratch, os.path.basename(p)[:5])],
         up_inputs, jobs=6, timeout_s=3000)
-    if s_up["mismatches"]:
+    if s_up["mismatches"] and not s_up["violations"]:
         raise ToolError("server answers differ from Upload.tla on schedules of the faithful model: %s"
                         % json.dumps(s_up["mismatches"][:3])[:1500])
     f_inputs = []
